@@ -1,4 +1,4 @@
-\* placement: every geometry x configuration; the list only scrolls
+\* placement: every geometry x configuration x shown / hidden sections; the list only scrolls
 CONSTANTS
   Widths = {22}
   Heights = {3, 4, 5, 8}
@@ -17,8 +17,14 @@ CONSTANTS
   Queries <- MCQueriesQ
   MaxCount = 12
   Tracks = {0}
-  Acts = {"move"}
+  Hscrolls = {FALSE}
+  HscrollOffs = {10}
+  KeepRights = {FALSE}
+  Scrollbars <- MCNoScrollbar
+  Borders = {FALSE}
+  Patterns <- MCPatternsNone
+  Acts = {"move", "vis"}
 INIT Init
 NEXT Next
-INVARIANTS InvPlace InvRowCount InvClaims InvOnePointer InvPointerOnCurrent InvHeaderOutsideList
+INVARIANTS InvHidden InvPlace InvRowCount InvClaims InvOnePointer InvPointerOnCurrent InvHeaderOutsideList
 CHECK_DEADLOCK FALSE
